@@ -18,10 +18,14 @@ Re-emits, from the current source,
 
 Fragment (anything else raises TranslateError => "tie broken"):
   save rule : a single `if A or B:` whose disjuncts are `<x> - self.<attr> > INT`
-              and `current_rep % INT == 0` (either order)
+              and `current_rep % INT == 0` (either order); equivalent spellings are normalised first
+              (harness.gen.norm): the guard-clause form `if not (A or B): return`, mirrored comparisons
+              `INT < <x> - self.<attr>`, `not current_rep % INT`
   writers   : statements `with open(N, MODE) as F: <body>`, `try: <body> except ...: <cleanup>`
-              (the handlers are not part of the normal path), `name = <expr>` (a derived
-              file name), expression statements that are calls; inside a `with` body a
+              (the handlers are not part of the normal path; `else:` and `finally:` blocks are: they run
+              after the body), `name = <expr>` (a derived file name), `flag = True/False` and
+              `if [not] flag:` on such a flag (only the branch taken on the normal path is followed:
+              the `finally: if not done: cleanup` idiom), expression statements that are calls; inside a `with` body a
               call mentioning `F` as an argument or receiver is a write unless it is
               `F.flush()` / `os.fsync(F.fileno())` (emitted as steps) or `F.close()`;
               one call of a helper `helper(filename, MODE, <callable>)` is inlined
@@ -31,6 +35,7 @@ import ast
 import os
 
 from harness.translate import TranslateError, parse_file, find_fn
+from harness.gen import norm
 
 RUNNER = 'pyphysim/simulations/runner.py'
 RESULTS = 'pyphysim/simulations/results.py'
@@ -46,8 +51,11 @@ def _int(e):
 def save_rule(repo):
     tree = parse_file(os.path.join(repo, RUNNER))
     fn = find_fn(tree, 'save_partial_results_maybe', 'SimulationResultsSaver')
-    ifs = [s for s in fn.body if isinstance(s, ast.If)]
-    if len(ifs) != 1 or ifs[0].orelse:
+    # normal form: guard clause `if not (A or B): return` == `if A or B: <rest>`; mirrored comparisons
+    # (`300 < x` == `x > 300`) and `not rep % n` == `rep % n == 0` are brought to one spelling
+    body = norm.tail_form(norm.canon_fn(fn).body, True)
+    ifs = [s for s in body if isinstance(s, ast.If)]
+    if len(ifs) != 1 or ifs[0].orelse or body[-1] is not ifs[0]:
         raise TranslateError('save_partial_results_maybe: expected exactly one `if` without else')
     test = ifs[0].test
     if not (isinstance(test, ast.BoolOp) and isinstance(test.op, ast.Or) and len(test.values) == 2):
@@ -81,6 +89,7 @@ class Writer:
         self.target = target      # name of the parameter holding the file name
         self.ops = []
         self.depth = 0
+        self.flags = {}           # local name -> True / False while it provably holds that literal on the normal path
 
     def mentions(self, node, name):
         return any(isinstance(n, ast.Name) and n.id == name for n in ast.walk(node))
@@ -160,10 +169,25 @@ class Writer:
                     and fvar is None:
                 if s.targets[0].id == self.target:
                     raise TranslateError('the target file name is reassigned')
+                if isinstance(s.value, ast.Constant) and isinstance(s.value.value, bool):
+                    self.flags[s.targets[0].id] = s.value.value
+                else:
+                    self.flags.pop(s.targets[0].id, None)
             elif isinstance(s, ast.Try):
-                if s.orelse or s.finalbody:
-                    raise TranslateError('try/else/finally in the save path')
+                # normal path (no exception): body, then `else`, then `finally`; the handlers are not on it
                 self.block(s.body, fvar, kind)
+                self.block(s.orelse, fvar, kind)
+                self.block(s.finalbody, fvar, kind)
+            elif isinstance(s, ast.If):
+                # only a test on a flag whose value on the normal path is known (`done = False` ...
+                # `done = True` ... `finally: if not done: <cleanup>`): the branch taken is followed
+                t, neg = s.test, False
+                while isinstance(t, ast.UnaryOp) and isinstance(t.op, ast.Not):
+                    t, neg = t.operand, not neg
+                if not (isinstance(t, ast.Name) and t.id in self.flags):
+                    raise TranslateError('unsupported statement in the save path: If on something that is not '
+                                         'a flag with a known value')
+                self.block(s.body if self.flags[t.id] != neg else s.orelse, fvar, kind)
             elif isinstance(s, ast.With) and len(s.items) == 1 and fvar is None:
                 it = s.items[0]
                 name = self.is_open_w(it.context_expr)
